@@ -12,12 +12,13 @@
    csv_mapping.rs, write_mode.rs, response_output_policy.rs), tied to the code by the streams of
    checks/c19.py on every run.
 
-   Not proved (checked by real parsing in the harness on every run instead): that a JSON reader
-   maps the text [to_string r] back to [r] (json_line_roundtrip); proved here is the part the
-   record structure of the file depends on: the text contains no line feed. *)
+   The JSON reader of the round-trip theorem is Model/SinkJson.v (compact JSON, numbers kept as
+   their text: the decimal text of an f64 is ryu's, a parameter here); the same reader judges the
+   real records in the fmt stream, next to an exact JSON reader in the harness. *)
 From Coq Require Import String Ascii List Bool Arith Permutation Floats ZArith.
 From RC Require Import Base.Show Base.Res Base.Json Model.Sink
-                       Proofs.Sink Proofs.SinkFmt Proofs.SinkCsv Proofs.SinkEnd.
+                       Model.SinkJson
+                       Proofs.Sink Proofs.SinkFmt Proofs.SinkCsv Proofs.SinkEnd Proofs.SinkJson.
 Import ListNotations.
 Import SK.
 Open Scope string_scope.
@@ -155,12 +156,20 @@ Section C19_fmt.
                     /\ string_of_list_ascii (file s) = base ++ cat (map (fun r => to_string fj r ++ nl) order).
   Proof. exact (json_lines_end_to_end fj fd fo). Qed.
 
-  (* json_line_roundtrip, the part proved: a record never contains a line feed, so the lines of
-     the file are the records *)
-  Theorem c19_json_line_no_newline_partial :
+  (* a record never contains a line feed, so the lines of the file are the records *)
+  Theorem c19_json_line_no_newline :
       (forall f, contains_char nl_char (fj f) = false) ->
       forall j, contains_char nl_char (to_string fj j) = false.
   Proof. exact (json_line_no_newline fj). Qed.
+
+  (* json_line_roundtrip: each JSON record parses back to the response that was produced *)
+  Theorem c19_json_line_roundtrip :
+      (forall f, SJ.num_text (fj f)) ->
+      forall j, SJ.parse_value (SJ.vsize j) (to_string fj j) = Some (SJ.erase fj j, EmptyString).
+  Proof. exact (SJ_roundtrip fj). Qed.
+  Theorem c19_json_reads_back :
+      (forall f, SJ.num_text (fj f)) -> forall j, SJ.reads_back fj (to_string fj j) j = true.
+  Proof. exact (reads_back_own_text fj). Qed.
 End C19_fmt.
 
 (* the reader gets back what the writer wrote, for a whole file *)
@@ -259,9 +268,20 @@ Proof.
   split; [vm_compute; reflexivity|]. eexists. eexists. split; [vm_compute; reflexivity|].
   vm_compute. reflexivity.
 Qed.
-(* the D-CSVERR witness: the search error survives, the mapping failures go to csv_error *)
 Definition ex_err : json :=
   JObj [("request", JObj [("origin_vertex", JInt 0)]); ("error", JStr "no path exists between vertices 0 and 99")].
+(* the oracle hypotheses are satisfiable and the reader really reads: a record with escapes *)
+Example c19_nonvacuous_json :
+  (forall f, SJ.num_text (ex_fj f)) /\ (forall f, contains_char nl_char (ex_fj f) = false)
+  /\ to_string ex_fj ex_resp
+     = "{""request"":{""origin_vertex"":0,""name"":""a \""quoted\"", name\nsecond line""},""route"":{""path"":[0,2],""cost"":{""total_cost"":29276.44456915712}}}"
+  /\ SJ.reads_back ex_fj (to_string ex_fj ex_resp) ex_resp = true
+  /\ SJ.reads_back ex_fj (to_string ex_fj ex_resp) ex_err = false.
+Proof.
+  split; [intros f; split; [discriminate|reflexivity]|]. split; [intros f; reflexivity|].
+  split; [vm_compute; reflexivity|]. split; vm_compute; reflexivity.
+Qed.
+(* the D-CSVERR witness: the search error survives, the mapping failures go to csv_error *)
 Example c19_nonvacuous_error_kept :
   exists row r', format_response ex_fj ex_fj ex_fo (FCsv ex_map true) ex_err = Ok (row, r')
        /\ row = ",,,0"
@@ -290,7 +310,10 @@ Print Assumptions c19_csv_header_once.
 Print Assumptions c19_csv_row_field_count.
 Print Assumptions c19_csv_end_to_end.
 Print Assumptions c19_json_lines_end_to_end.
-Print Assumptions c19_json_line_no_newline_partial.
+Print Assumptions c19_json_line_no_newline.
+Print Assumptions c19_json_line_roundtrip.
+Print Assumptions c19_json_reads_back.
+Print Assumptions c19_nonvacuous_json.
 Print Assumptions c19_csv_file_roundtrip.
 Print Assumptions c19_nonvacuous_accepts.
 Print Assumptions c19_nonvacuous_rejects.
